@@ -912,7 +912,7 @@ func checkC17(p *Prog, r *Report) {
 			for _, a := range l.concrete() {
 				ls |= secLabel(a.Idx)
 			}
-			fl = append(fl, fv.Name()+":"+ls.String())
+			fl = append(fl, fldName(fv)+":"+ls.String())
 		}
 	}
 	sort.Strings(fl)
